@@ -14,9 +14,9 @@ package main
 import (
 	"fmt"
 	"sort"
-	"time"
 	"strings"
 	"sync"
+	"time"
 
 	"github.com/256dpi/gomqtt/client/future"
 
@@ -54,17 +54,25 @@ func runC17(c *hx.Ctx) {
 	scns = append(scns, scheduleScenarios(c)...)
 	scns = append(scns, randomScenarios(c)...)
 	if c.Replay != "" {
+		// a replay file selects scenarios by `name=<scenario>` and/or `family=<name prefix>` tokens
 		want := map[string]bool{}
+		var fams []string
 		for _, l := range hx.ReadLines(c.Replay) {
 			for _, w := range strings.Fields(l) {
 				if strings.HasPrefix(w, "name=") {
 					want[w[5:]] = true
+				} else if strings.HasPrefix(w, "family=") {
+					fams = append(fams, w[7:])
 				}
 			}
 		}
 		var sel []*scn
 		for _, s := range scns {
-			if want[s.name] {
+			ok := want[s.name]
+			for _, f := range fams {
+				ok = ok || strings.HasPrefix(s.name, f)
+			}
+			if ok {
 				sel = append(sel, s)
 			}
 		}
@@ -115,7 +123,19 @@ func runC17(c *hx.Ctx) {
 		} else {
 			c.Emit("direct single_client %d %s ok", s.id, s.name)
 		}
-		if s.noMon {
+		dk := make([]string, 0, len(s.directs))
+		for k := range s.directs {
+			dk = append(dk, k)
+		}
+		sort.Strings(dk)
+		for _, k := range dk {
+			if s.directs[k] == "" {
+				c.Emit("direct %s %d %s ok", k, s.id, s.name)
+			} else {
+				c.Emit("direct %s %d %s FAIL %s", k, s.id, s.name, s.directs[k])
+			}
+		}
+		if s.noMon && strings.HasPrefix(s.name, "conc-") {
 			// per calling goroutine, the publishes reach the peers in the order that goroutine issued them
 			last := map[string]string{}
 			bad := ""
